@@ -10,6 +10,7 @@ class Isolation(Monitor):
     def __init__(self, ctx):
         self.ctx = ctx
         self.extracts = 0
+        self.handed_ids = {}
         self.sample_every = ctx.scenario.get("c13_sample_every", 1)
 
     def on_insert_begin(self, state_handler, out_state):
@@ -24,6 +25,16 @@ class Isolation(Monitor):
     def on_extract(self, state_handler, identifier, branch):
         ctx = self.ctx
         self.extracts += 1
+        for cnode in walk_cnodes([branch]):
+            unit = cnode.value
+            for obj in (cnode, unit, unit.position, unit.velocity, unit.time_stamp):
+                if obj is not None:
+                    if id(obj) in self.handed_ids:
+                        ctx.violation("C13", "extracted_branch_shares_objects_with_an_earlier_extraction",
+                                      {"identifier": tuple(identifier), "type": type(obj).__name__})
+                    self.handed_ids[id(obj)] = obj
+        if len(self.handed_ids) > 20000:
+            self.handed_ids.clear()
         identifier = tuple(identifier)
         G = ctx.G
         # shape: root ancestor, path to the node, all descendants
@@ -63,6 +74,21 @@ class Isolation(Monitor):
     def on_extract_active(self, state_handler, result):
         ctx = self.ctx
         G = ctx.G
+        # two extractions are isolated copies: no unit, position, velocity or time-stamp object is handed out twice
+        # (the previous results are kept alive, so an identity can only repeat if the object is shared)
+        handed = []
+        for cnode in walk_cnodes(result):
+            unit = cnode.value
+            handed.extend(x for x in (cnode, unit, unit.position, unit.velocity, unit.time_stamp) if x is not None)
+        seen = self.handed_ids
+        for obj in handed:
+            if id(obj) in seen:
+                ctx.violation("C13", "extracted_active_part_shares_objects_with_an_earlier_extraction",
+                              {"type": type(obj).__name__})
+        for obj in handed:
+            seen[id(obj)] = obj
+        if len(seen) > 20000:
+            seen.clear()
         expected = []
         for root in ctx.roots:
             kids = ctx.children.get(root) or []
